@@ -1,5 +1,6 @@
 import os
 import csv
+import copy
 import warnings
 import decimal
 import datetime
@@ -253,8 +254,21 @@ class load(DataStreamProcessor):
                 index += 1
                 name = '{}_{}'.format(descriptor['name'], index)
             if name != descriptor['name']:
-                self.resource_descriptors[i] = dict(descriptor, name=name)
+                self.resource_descriptors[i] = descriptor = dict(descriptor, name=name)
             existing.add(name)
+            # The field that receives the extracted missing values is declared for every kind of source
+            if self.extract_missing_values:
+                target = self.extract_missing_values['target']
+                schema = descriptor.get('schema', {})
+                if all(f['name'] != target for f in schema.get('fields', [])):
+                    descriptor = copy.deepcopy(descriptor)
+                    descriptor.setdefault('schema', {}).setdefault('fields', []).append({
+                        'name': target,
+                        'type': 'object',
+                        'format': 'default',
+                        'values': self.extract_missing_values['values'] or schema.get('missingValues', []),
+                    })
+                    self.resource_descriptors[i] = descriptor
         dp.descriptor.setdefault('resources', []).extend(self.resource_descriptors)
         return dp
 
